@@ -99,7 +99,7 @@ func Run(choose func(n int) int, bodies ...func()) (s *Scheduler) {
 		t.resume <- struct{}{}
 		select {
 		case <-s.yield:
-		case <-time.After(10 * time.Second):
+		case <-time.After(StuckAfter):
 			// the thread neither finished nor reached a scheduling point: it waits for something the
 			// scheduler does not own; the execution cannot be continued deterministically
 			s.Stuck = true
@@ -108,6 +108,10 @@ func Run(choose func(n int) int, bodies ...func()) (s *Scheduler) {
 		last = t
 	}
 }
+
+// StuckAfter: how long a resumed thread may run without reaching a scheduling point or finishing
+// before the execution is given up as stuck (each step takes microseconds).
+var StuckAfter = 60 * time.Second
 
 func (s *Scheduler) Panics() []any { return s.panics }
 
